@@ -38,6 +38,7 @@ import (
 	"path/filepath"
 	"reflect"
 	"sort"
+	"strconv"
 	"strings"
 	"sync"
 	"time"
@@ -303,6 +304,9 @@ func inlinePackage(pk *packages.Package, pkgRel string, overlay map[string][]byt
 			prev := files[i].content
 			files[i].content = buf.Bytes()
 			if !packageTypeChecks(pk.PkgPath, files, imp) {
+				pruneUnusedImports(pk.PkgPath, files, i, imp)
+			}
+			if !packageTypeChecks(pk.PkgPath, files, imp) {
 				files[i].content = prev
 				for _, k := range il.doneKeys {
 					failedSite[k] = true
@@ -382,7 +386,10 @@ func removeDeadHelpers(path, pkgRel string, files []*pkgFile, imp types.Importer
 			prev := files[i].content
 			files[i].content = buf.Bytes()
 			if !packageTypeChecks(path, files, imp) {
-				files[i].content = prev // e.g. an import became unused: keep the helper
+				pruneUnusedImports(path, files, i, imp)
+			}
+			if !packageTypeChecks(path, files, imp) {
+				files[i].content = prev
 				continue
 			}
 			changed[files[i].name] = true
@@ -575,6 +582,7 @@ func derefType(t types.Type) types.Type {
 
 func (il *inliner) rewriteFile(f *ast.File) int {
 	il.curFile = f
+	il.ensureImports(f)
 	n := 0
 	for _, d := range f.Decls {
 		fd, ok := d.(*ast.FuncDecl)
@@ -890,6 +898,26 @@ func (il *inliner) inlineIn(s ast.Stmt) ([]ast.Stmt, bool) {
 	}
 	sig := fn.Type().(*types.Signature)
 	nres := sig.Results().Len()
+	// a callee that is nothing but `return e1, ..., en` with simple arguments: substitute the expressions
+	if exprs, ok := il.simpleReturn(call, fn); ok {
+		direct := *slot == ast.Expr(call)
+		switch x := s.(type) {
+		case *ast.AssignStmt:
+			if direct && len(x.Rhs) == 1 && (len(exprs) == len(x.Lhs) || len(exprs) == 1) {
+				x.Rhs = exprs
+				return []ast.Stmt{s}, true
+			}
+		case *ast.ReturnStmt:
+			if direct && len(x.Results) == 1 {
+				x.Results = exprs
+				return []ast.Stmt{s}, true
+			}
+		}
+		if len(exprs) == 1 {
+			*slot = &ast.ParenExpr{X: exprs[0]}
+			return []ast.Stmt{s}, true
+		}
+	}
 	*il.counter++
 	id := *il.counter
 	body, resNames, ok := il.expand(call, fn, id)
@@ -957,6 +985,214 @@ func (il *inliner) inlineIn(s ast.Stmt) ([]ast.Stmt, bool) {
 	}
 	// assignments / definitions: the defined names must stay visible to the following statements
 	return []ast.Stmt{pre, body, s}, true
+}
+
+// simpleReturn: the callee's body is a single return statement, every parameter (and the receiver) is used at most
+// once in it and bound to an argument that is an identifier, a selector chain of identifiers, a literal or &ident; the
+// returned expressions with the arguments substituted are the result.
+func (il *inliner) simpleReturn(call *ast.CallExpr, fn *types.Func) ([]ast.Expr, bool) {
+	fd := il.decls[fn]
+	if fd == nil || len(fd.Body.List) != 1 {
+		return nil, false
+	}
+	ret, ok := fd.Body.List[0].(*ast.ReturnStmt)
+	if !ok || len(ret.Results) == 0 {
+		return nil, false
+	}
+	sig := fn.Type().(*types.Signature)
+	if sig.Variadic() && call.Ellipsis == token.NoPos {
+		return nil, false
+	}
+	var pure func(e ast.Expr) bool
+	pure = func(e ast.Expr) bool {
+		switch x := e.(type) {
+		case *ast.Ident, *ast.BasicLit:
+			return true
+		case *ast.SelectorExpr:
+			return pure(x.X)
+		case *ast.UnaryExpr:
+			return x.Op == token.AND && pure(x.X)
+		case *ast.StarExpr:
+			return pure(x.X)
+		case *ast.ParenExpr:
+			return pure(x.X)
+		}
+		return false
+	}
+	subst := map[types.Object]ast.Expr{}
+	if sig.Recv() != nil {
+		sel, ok := call.Fun.(*ast.SelectorExpr)
+		if !ok || !pure(sel.X) {
+			return nil, false
+		}
+		si := il.info.Selections[sel]
+		if si == nil || si.Kind() != types.MethodVal || len(si.Index()) != 1 {
+			return nil, false
+		}
+		// only when no implicit & or * is needed
+		xt := il.info.TypeOf(sel.X)
+		if xt == nil || !types.Identical(xt, sig.Recv().Type()) {
+			return nil, false
+		}
+		if len(fd.Recv.List) > 0 && len(fd.Recv.List[0].Names) > 0 {
+			if obj := il.info.Defs[fd.Recv.List[0].Names[0]]; obj != nil {
+				subst[obj] = sel.X
+			}
+		}
+	}
+	pi := 0
+	for _, fld := range fd.Type.Params.List {
+		names := fld.Names
+		if len(names) == 0 {
+			names = []*ast.Ident{nil}
+		}
+		for _, nm := range names {
+			if pi >= len(call.Args) || !pure(call.Args[pi]) {
+				return nil, false
+			}
+			// the argument must already have the parameter's type (no implicit conversion is lost)
+			at := il.info.TypeOf(call.Args[pi])
+			if at == nil || !types.Identical(at, sig.Params().At(pi).Type()) {
+				return nil, false
+			}
+			if nm != nil && nm.Name != "_" {
+				if obj := il.info.Defs[nm]; obj != nil {
+					subst[obj] = call.Args[pi]
+				}
+			}
+			pi++
+		}
+	}
+	if pi != len(call.Args) {
+		return nil, false
+	}
+	// free names must resolve identically at the call site; count parameter uses
+	uses := map[types.Object]int{}
+	callScope := il.scopeAt(call.Pos())
+	okFree := true
+	for _, r := range ret.Results {
+		ast.Inspect(r, func(n ast.Node) bool {
+			if _, isLit := n.(*ast.FuncLit); isLit {
+				okFree = false
+				return false
+			}
+			idn, ok := n.(*ast.Ident)
+			if !ok {
+				return true
+			}
+			obj := il.info.Uses[idn]
+			if obj == nil {
+				return true
+			}
+			if _, isParam := subst[obj]; isParam {
+				uses[obj]++
+				return true
+			}
+			switch o := obj.(type) {
+			case *types.PkgName:
+				found := false
+				for _, is := range il.curFile.Imports {
+					if strings.Trim(is.Path.Value, "\"") == o.Imported().Path() {
+						nm := o.Imported().Name()
+						if is.Name != nil {
+							nm = is.Name.Name
+						}
+						if nm == idn.Name {
+							found = true
+						}
+					}
+				}
+				if !found {
+					okFree = false
+				}
+			default:
+				if (obj.Parent() == il.pkg.Scope() || obj.Parent() == types.Universe) && callScope != nil {
+					if _, found := callScope.LookupParent(idn.Name, call.Pos()); found != nil && found != obj {
+						okFree = false
+					}
+				}
+			}
+			return true
+		})
+	}
+	if !okFree {
+		return nil, false
+	}
+	for _, n := range uses {
+		if n > 1 {
+			return nil, false
+		}
+	}
+	posObj := map[token.Pos]types.Object{}
+	for _, r := range ret.Results {
+		ast.Inspect(r, func(n ast.Node) bool {
+			if idn, ok := n.(*ast.Ident); ok {
+				if o := il.info.Uses[idn]; o != nil {
+					posObj[idn.Pos()] = o
+				}
+			}
+			return true
+		})
+	}
+	var out []ast.Expr
+	for _, r := range ret.Results {
+		cl := cloneNode(r).(ast.Expr)
+		cl = substIdents(cl, func(id *ast.Ident) ast.Expr {
+			if o := posObj[id.Pos()]; o != nil {
+				if e, ok := subst[o]; ok {
+					return cloneNode(e).(ast.Expr)
+				}
+			}
+			return nil
+		})
+		clearPos(cl)
+		out = append(out, cl)
+	}
+	return out, true
+}
+
+// substIdents replaces identifiers for which f returns a non-nil expression.
+func substIdents(e ast.Expr, f func(*ast.Ident) ast.Expr) ast.Expr {
+	if id, ok := e.(*ast.Ident); ok {
+		if r := f(id); r != nil {
+			return r
+		}
+		return e
+	}
+	v := reflect.ValueOf(e)
+	var walk func(v reflect.Value)
+	exprType := reflect.TypeOf((*ast.Expr)(nil)).Elem()
+	walk = func(v reflect.Value) {
+		switch v.Kind() {
+		case reflect.Ptr:
+			if !v.IsNil() {
+				walk(v.Elem())
+			}
+		case reflect.Interface:
+			if v.IsNil() {
+				return
+			}
+			if v.Type() == exprType && v.CanSet() {
+				if id, ok := v.Interface().(*ast.Ident); ok {
+					if r := f(id); r != nil {
+						v.Set(reflect.ValueOf(r))
+						return
+					}
+				}
+			}
+			walk(v.Elem())
+		case reflect.Struct:
+			for i := 0; i < v.NumField(); i++ {
+				walk(v.Field(i))
+			}
+		case reflect.Slice:
+			for i := 0; i < v.Len(); i++ {
+				walk(v.Index(i))
+			}
+		}
+	}
+	walk(v)
+	return e
 }
 
 func varDecl(name string, typ ast.Expr, val ast.Expr) ast.Stmt {
@@ -1058,6 +1294,48 @@ func (il *inliner) expand(call *ast.CallExpr, fn *types.Func, id int) (*ast.Bloc
 		}
 		stmts = append(stmts, varDecl(name, te, recvExpr), useVar(name))
 	}
+	// names defined inside the callee, and parameters the callee writes to or takes the address of
+	definedInCallee := map[string]bool{}
+	written := map[types.Object]bool{}
+	ast.Inspect(fd.Body, func(n ast.Node) bool {
+		switch x := n.(type) {
+		case *ast.Ident:
+			if il.info.Defs[x] != nil {
+				definedInCallee[x.Name] = true
+			}
+		case *ast.AssignStmt:
+			for _, l := range x.Lhs {
+				if id, ok := l.(*ast.Ident); ok {
+					if o := il.info.Uses[id]; o != nil {
+						written[o] = true
+					}
+				}
+			}
+		case *ast.IncDecStmt:
+			if id, ok := x.X.(*ast.Ident); ok {
+				if o := il.info.Uses[id]; o != nil {
+					written[o] = true
+				}
+			}
+		case *ast.UnaryExpr:
+			if x.Op == token.AND {
+				if id, ok := x.X.(*ast.Ident); ok {
+					if o := il.info.Uses[id]; o != nil {
+						written[o] = true
+					}
+				}
+			}
+		case *ast.RangeStmt:
+			for _, l := range []ast.Expr{x.Key, x.Value} {
+				if id, ok := l.(*ast.Ident); ok && x.Tok == token.ASSIGN {
+					if o := il.info.Uses[id]; o != nil {
+						written[o] = true
+					}
+				}
+			}
+		}
+		return true
+	})
 	pi := 0
 	for _, fld := range fd.Type.Params.List {
 		names := fld.Names
@@ -1067,6 +1345,17 @@ func (il *inliner) expand(call *ast.CallExpr, fn *types.Func, id int) (*ast.Bloc
 		for _, nm := range names {
 			if pi >= len(call.Args) {
 				return nil, nil, false
+			}
+			// an argument that is a plain local identifier of exactly the parameter's type, bound to a parameter the
+			// callee never writes: use the caller's variable itself (no copy that would hide the data flow)
+			if aid, ok := call.Args[pi].(*ast.Ident); ok && nm != nil && nm.Name != "_" {
+				if pobj := il.info.Defs[nm]; pobj != nil && !written[pobj] && !definedInCallee[aid.Name] {
+					if aobj, ok := il.info.Uses[aid].(*types.Var); ok && !aobj.IsField() && aobj.Parent() != il.pkg.Scope() && types.Identical(aobj.Type(), sig.Params().At(pi).Type()) {
+						rename[pobj] = aid.Name
+						pi++
+						continue
+					}
+				}
 			}
 			name := fmt.Sprintf("%sp%d", prefix, pi)
 			if nm != nil && nm.Name != "_" {
@@ -1496,4 +1785,167 @@ func writeInlineCache(key string, ov map[string][]byte) {
 			os.Remove(filepath.Join(inlineCacheDir(), fs[i].name))
 		}
 	}
+}
+
+
+// ensureImports adds to f the imports that the bodies of inlinable helpers called from f need and f lacks (a helper
+// defined in another file of the package). An import that ends up unused is removed again by pruneUnusedImports.
+func (il *inliner) ensureImports(f *ast.File) {
+	have := map[string]string{} // path -> local name
+	names := map[string]bool{}
+	for _, is := range f.Imports {
+		path := strings.Trim(is.Path.Value, "\"")
+		if is.Name != nil {
+			have[path] = is.Name.Name
+			names[is.Name.Name] = true
+		} else if o, ok := il.info.Implicits[is].(*types.PkgName); ok {
+			have[path] = o.Name()
+			names[o.Name()] = true
+		}
+	}
+	fileNames := map[string]bool{}
+	ast.Inspect(f, func(n ast.Node) bool {
+		if id, ok := n.(*ast.Ident); ok {
+			fileNames[id.Name] = true
+		}
+		return true
+	})
+	need := map[string]string{}
+	seen := map[*types.Func]bool{}
+	var visit func(body ast.Node)
+	visit = func(body ast.Node) {
+		ast.Inspect(body, func(n ast.Node) bool {
+			call, ok := n.(*ast.CallExpr)
+			if !ok {
+				return true
+			}
+			g := il.calleeOf(call)
+			if g == nil || !il.cand[g] || seen[g] {
+				return true
+			}
+			seen[g] = true
+			fd := il.decls[g]
+			if fd == nil {
+				return true
+			}
+			ast.Inspect(fd, func(m ast.Node) bool {
+				if id, ok := m.(*ast.Ident); ok {
+					if pn, ok := il.info.Uses[id].(*types.PkgName); ok {
+						if _, ok := have[pn.Imported().Path()]; !ok {
+							need[pn.Imported().Path()] = pn.Name()
+						}
+					}
+				}
+				return true
+			})
+			visit(fd.Body)
+			return true
+		})
+	}
+	visit(f)
+	if len(need) == 0 {
+		return
+	}
+	var paths []string
+	for p := range need {
+		paths = append(paths, p)
+	}
+	sort.Strings(paths)
+	var specs []ast.Spec
+	for _, p := range paths {
+		nm := need[p]
+		if names[nm] || fileNames[nm] && il.pkg.Scope().Lookup(nm) != nil {
+			continue
+		}
+		// a local of the same name somewhere in the file would shadow the package: leave such a file alone
+		shadow := false
+		ast.Inspect(f, func(n ast.Node) bool {
+			if id, ok := n.(*ast.Ident); ok && id.Name == nm && il.info.Defs[id] != nil {
+				shadow = true
+			}
+			return true
+		})
+		if shadow {
+			continue
+		}
+		is := &ast.ImportSpec{Name: ast.NewIdent(nm), Path: &ast.BasicLit{Kind: token.STRING, Value: strconv.Quote(p)}}
+		f.Imports = append(f.Imports, is)
+		specs = append(specs, is)
+		names[nm] = true
+	}
+	if len(specs) == 0 {
+		return
+	}
+	gd := &ast.GenDecl{Tok: token.IMPORT, Lparen: 1, Specs: specs, Rparen: 1}
+	// import declarations must come first
+	k := 0
+	for k < len(f.Decls) {
+		if g, ok := f.Decls[k].(*ast.GenDecl); ok && g.Tok == token.IMPORT {
+			k++
+			continue
+		}
+		break
+	}
+	f.Decls = append(f.Decls[:k], append([]ast.Decl{gd}, f.Decls[k:]...)...)
+}
+
+// pruneUnusedImports removes from files[i] the named or default imports nothing in the file refers to.
+func pruneUnusedImports(path string, files []*pkgFile, i int, imp types.Importer) {
+	fset := token.NewFileSet()
+	var asts []*ast.File
+	for _, fs := range files {
+		f, err := parser.ParseFile(fset, fs.name, fs.content, parser.SkipObjectResolution)
+		if err != nil {
+			return
+		}
+		asts = append(asts, f)
+	}
+	info := &types.Info{Uses: map[*ast.Ident]types.Object{}, Implicits: map[ast.Node]types.Object{}, Defs: map[*ast.Ident]types.Object{}}
+	conf := types.Config{Importer: imp, Error: func(error) {}}
+	conf.Check(path, fset, asts, info)
+	used := map[types.Object]bool{}
+	for _, o := range info.Uses {
+		used[o] = true
+	}
+	f := asts[i]
+	drop := map[*ast.ImportSpec]bool{}
+	for _, is := range f.Imports {
+		var o types.Object
+		if is.Name != nil {
+			if is.Name.Name == "_" || is.Name.Name == "." {
+				continue
+			}
+			o = info.Defs[is.Name]
+		} else {
+			o = info.Implicits[is]
+		}
+		if o != nil && !used[o] {
+			drop[is] = true
+		}
+	}
+	if len(drop) == 0 {
+		return
+	}
+	var decls []ast.Decl
+	for _, d := range f.Decls {
+		if g, ok := d.(*ast.GenDecl); ok && g.Tok == token.IMPORT {
+			var keep []ast.Spec
+			for _, s := range g.Specs {
+				if !drop[s.(*ast.ImportSpec)] {
+					keep = append(keep, s)
+				}
+			}
+			if len(keep) == 0 {
+				continue
+			}
+			g.Specs = keep
+		}
+		decls = append(decls, d)
+	}
+	f.Decls = decls
+	var buf bytes.Buffer
+	if err := (&printer.Config{Mode: printer.UseSpaces | printer.TabIndent, Tabwidth: 8}).Fprint(&buf, fset, f); err != nil {
+		return
+	}
+	files[i].content = buf.Bytes()
 }
